@@ -78,6 +78,8 @@ _Static_assert(sizeof(src_procs_map) / sizeof(*src_procs_map) == M_SRC_TYPE_END,
 static void src_release(void *data) {
     ev_src_t *t = (ev_src_t *)data;
 
+    wait_task(t);
+
     /* If a fd is deregistered for a RUNNING module, stop polling on it */
     if (m_mod_is(t->mod, M_MOD_RUNNING)) {
         M_MOD_CTX(t->mod);
@@ -362,6 +364,7 @@ static ev_src_t *process_pid(ev_src_t *this, m_ctx_t *c, int idx, evt_priv_t *ev
 static ev_src_t *process_task(ev_src_t *this, m_ctx_t *c, int idx, evt_priv_t *evt) {
     evt->evt.task_evt = m_mem_new(sizeof(*evt->evt.task_evt), NULL);
     if (poll_consume_task(&c->ppriv, idx, this, evt->evt.task_evt) == 0) {
+        this->task_src.running = false;
         evt->evt.task_evt->tid = this->task_src.tid.tid;
     }
     return this;
@@ -463,7 +466,25 @@ int start_task(m_ctx_t *c, ev_src_t *src) {
         c->thpool = m_thpool_new(M_TASK_MAX_THREADS, M_THPOOL_LAZY);
     }
     M_ALLOC_ASSERT(c->thpool);
-    return m_thpool_add(c->thpool, task_thread, src);
+    const int ret = m_thpool_add(c->thpool, task_thread, src);
+    src->task_src.running = ret == 0;
+    return ret;
+}
+
+/*
+ * The thread of a started task uses its source (to store the return value, to notify us) until it has notified us:
+ * the source cannot leave the poll (its module being paused, stopped or deregistered) before that.
+ * A single task cannot be waited for: tear the pool down waiting for all of its tasks, as loop_stop() does;
+ * it is created again by next task.
+ */
+void wait_task(ev_src_t *src) {
+    if (src->type == M_SRC_TYPE_TASK && src->task_src.running) {
+        M_MOD_CTX(src->mod);
+        if (c->thpool) {
+            m_thpool_free(&c->thpool, true);
+        }
+        src->task_src.running = false;
+    }
 }
 
 /** Public API **/
